@@ -37,7 +37,13 @@ for name in sorted(os.listdir(root)):
         "checks": checks,
         "caught_by": caught,
     }
+    disp = os.path.join(d, "disposition.json")
+    verdict = ", ".join(caught) or "MISSED"
+    if os.path.exists(disp):
+        meta.update(json.load(open(disp)))
+        if not caught:
+            verdict = "- (" + meta["disposition"] + ")"
     json.dump(meta, open(os.path.join(d, "meta.json"), "w"), indent=1)
-    rows.append((name, meta["property"], ", ".join(caught) or "MISSED", agent.get("summary", "")[:110]))
+    rows.append((name, meta["property"], verdict, agent.get("summary", "")[:110]))
 for r in rows:
     print("| `%s` | %s | %s | %s |" % r)
